@@ -47,3 +47,59 @@ pub fn vec_u32_with_capacity(n: usize, limit: Ghost<int>) -> (v: Vec<u32>)
   requires n as int * 4 <= limit@,
   ensures v@.len() == 0,
 { Vec::with_capacity(n) }
+
+// ---- the reader `r: impl Read + Seek` over the whole file is the same model
+impl Cur {
+  // `r.seek(SeekFrom::Start(p))`: a Cursor accepts any position
+  #[verifier::external_body]
+  pub fn seek_start(&mut self, p: u64) -> (o: Option<()>)
+    ensures o.is_some(), final(self).pos == p, final(self).buf == old(self).buf,
+  { unimplemented!() }
+  // `r.read_exact(&mut b)`: succeeds iff b.len() bytes remain
+  #[verifier::external_body]
+  pub fn read_exact(&mut self, b: &mut Vec<u8>) -> (o: Option<()>)
+    ensures final(b)@.len() == old(b)@.len(), final(self).buf == old(self).buf,
+            old(self).rem() >= old(b)@.len() ==> o.is_some() && final(self).pos == old(self).pos + old(b)@.len(),
+            old(self).rem() < old(b)@.len() ==> o.is_none() && old(self).pos <= final(self).pos <= old(self).pos + old(self).rem(),
+  { unimplemented!() }
+  // `Cursor::new(&v[..])`
+  #[verifier::external_body]
+  pub fn of(v: &Vec<u8>) -> (c: Cur)
+    ensures c.buf@ == v@, c.pos == 0,
+  { unimplemented!() }
+}
+
+// `vec![0u8; n]` / `v.resize(n, 0)` on an empty vector, with the allocation-bound obligation (limit = file length in bytes)
+#[verifier::external_body]
+pub fn vec_u8_zeroed(n: usize, limit: Ghost<int>) -> (v: Vec<u8>)
+  requires n as int <= limit@,
+  ensures v@.len() == n,
+{ vec![0u8; n] }
+// a buffer of a compile-time constant size (the header)
+#[verifier::external_body]
+pub fn vec_u8_fixed() -> (v: Vec<u8>) { unimplemented!() }
+// `Vec::with_capacity(n)` for 24-byte constant-table entries
+#[verifier::external_body]
+pub fn vec_entries_with_capacity(n: usize, limit: Ghost<int>) -> (v: Vec<ParsedConstEntry>)
+  requires n as int * 24 <= limit@,
+  ensures v@.len() == 0,
+{ Vec::with_capacity(n) }
+// `a.saturating_sub(b)`
+pub fn sat_sub(a: u64, b: u64) -> (r: u64) ensures r == (if a >= b { a - b } else { 0 }), { if a >= b { a - b } else { 0 } }
+// `a.checked_add(b)`
+pub fn checked_add_u64(a: u64, b: u64) -> (r: Option<u64>)
+  ensures a + b <= u64::MAX ==> r == Some((a + b) as u64), a + b > u64::MAX ==> r.is_none(),
+{ if a <= u64::MAX - b { Some(a + b) } else { None } }
+// `count.min(x)`
+pub fn min_usize(a: usize, b: usize) -> (r: usize) ensures r == (if a <= b { a } else { b }), { if a <= b { a } else { b } }
+// `ByteCodeHeader::read_from(&mut cur)`: fixed-size reads; the decoded fields are arbitrary
+#[verifier::external_body]
+pub fn read_header(c: &mut Cur) -> (o: Option<ByteCodeHeader>) ensures final(c).buf == old(c).buf, { unimplemented!() }
+#[verifier::external_body]
+pub fn string_from_utf8(b: Vec<u8>) -> (o: Option<String>) { unimplemented!() }
+pub struct TypeSection { pub entries: Vec<TypeEntry> }
+impl TypeSection { pub fn new() -> (s: TypeSection) { TypeSection { entries: Vec::new() } } }
+impl ByteCodeHeader {
+  #[verifier::external_body]
+  pub fn validate_magic_mech(&self) -> (b: bool) { unimplemented!() }
+}
